@@ -38,7 +38,7 @@ ASSUMPTIONS = ["the result object and addOnException handlers do not raise",
                "fixtures raise single exceptions; new-style _setUp and fixture cleanups raise Exception-derived ones"]
 EXPLANATION = ("Theorems in coq/Props/C02.v over all programs; correspondence: two run() calls on one generated "
                "testtools.TestCase instance, compared with coq/Model/Run.v on the execution log, len(_cleanups), "
-               "vars() of the patched object and the outcome kinds.")
+               "vars() of the patched object and on whether the second run repeats the outcome of the first.")
 
 FEATS = frozenset(["patch", "fixture", "details", "onexc"])
 
